@@ -582,7 +582,7 @@ func flusherAnchors(c *eng.Ctx) {
 	anchorRule(c, f, ".Level3.startAt", bucket, "flushLevel2SeriesBucket")
 	// at exit (deferred) the level-4 anchor is re-captured for the next series, after this series' offsets footer
 	okDef := false
-	for _, cl := range f.AnonFuncs {
+	for _, cl := range localFuncs(f) {
 		for _, s := range p.Sites(cl, func(p *eng.Prog, in ssa.Instruction) bool {
 			st, ok := in.(*ssa.Store)
 			return ok && strings.HasSuffix(p.Desc(st.Addr), ".Level4.startAt") && strings.Contains(p.Desc(st.Val), "kvWriter.Size()")
